@@ -92,6 +92,14 @@ func init() {
 			}
 			keys = append(keys, ex.keys)
 			sp.Chunks = hexChunks(keys)
+			// one case in four makes a second call on the same shell after the application has changed the
+			// terminal modes (same keys again): each call restores what IT found
+			if r.Intn(4) == 0 && ex.name != "eof" && ex.name != "panic" {
+				sp.Runs = 2
+				sp.Stty = true
+				sp.Chunks = append(append([]string{}, sp.Chunks...), sp.Chunks...)
+				shape += "+second-call"
+			}
 			return Case{Specs: []Spec{sp}, Class: ex.name + "/" + shape, Meta: map[string]string{"exit": ex.name, "shape": shape}}
 		},
 		oracle: func(c Case, trs []Trace) []Finding {
@@ -113,6 +121,11 @@ func init() {
 			var fs []Finding
 			if !res.Termios {
 				fs = append(fs, Finding{"C11", "termios-not-restored/" + ex, "terminal modes differ after the call", c})
+			}
+			for _, r2 := range tr.Results[1:] {
+				if r2.Err != "end-of-script" && r2.Panic == "" && !r2.Termios {
+					fs = append(fs, Finding{"C11", "termios-not-restored/second-call", "terminal modes changed by the application between two calls: the second call did not restore the modes it found", c})
+				}
 			}
 			if res.Tail == nil {
 				return fs
